@@ -52,6 +52,15 @@ def run(cfg, timeout):
     return r
 
 
+def memory_error(r):
+    """loommc killed by SIGSEGV / SIGBUS, or aborted by glibc's heap consistency checks"""
+    rc = r.get("rc")
+    txt = r.get("crash", "")
+    if rc in (-11, -7):
+        return True
+    return rc == -6 and any(m in txt for m in ("malloc()", "free()", "double free", "corrupted", "munmap_chunk", "tcache", "invalid pointer", "realloc()"))
+
+
 RULES = {
     "c07": "stateless exploration with loom of the real compression.rs (create_sync_vec, decode_to_end, SyncVecRd, impl Source for SeekableDecoder) and FileSource::read, and (engine B) of the real ContentPack reader: cluster cache Mutex<LruCache> of capacity 1 or 2 (eviction at every other access), the cluster RwLock raw->plain switch (two readers racing to start the decoder), background decoders with 4-byte chunks and the shared BufReader of the file, two readers doing 2+1 (or 2+2) content reads over {two blobs of one compressed cluster, a raw cluster, another compressed cluster}; (engine B2) of the real Container: two threads making the first accesses (1+1 and 2+1 operations over content reads in 3 packs, index/entry/value-store opening, check(), unknown pack id) to a freshly opened 5-file container (uncompressed, zstd, lz4, one pack file missing), with a scheduling point at every OnceLock operation of the pack slots, the store caches and the check-info cells; engine A: one decoder thread fed by a scripted Read (chunks of 2 bytes, short-read scripts {2},{1},{1,2}) and R readers each doing one operation from {get_slice(o,n) for every sub-range incl. one past the end, read(o, long/1), read_exact, stream to the end}; every operation tuple is a configuration; all interleavings at loom's scheduling points (mutex, condvar, thread) with preemption bound 0,1,2 (3 and unbounded where listed); one loom cell per buffer byte makes the unsynchronised buffer accesses visible to the race detector; evaluations = executions (complete schedules), distinct_nontrivial = configurations (operation tuple x short-read script)",
     "c08": "stateless exploration with loom of the real clusterwriter.rs (ClusterWriterProxy, W ClusterCompressor threads, the ClusterWriter thread, dispatch/fusion channels, back-pressure condvar) driven through ContentPackCreator with an in-memory recipient, 1 blob per cluster (override), every insertion program over {c: hint Yes, r: hint No} of length 1..4 (W=1) / 1..3 (W=2), programs with zero-length contents (e: empty/Yes, f: empty/No) plus 5 and 6 compressed clusters beyond the back-pressure limit, preemption bound 0,1,2 (3 on the short programs); per execution: creation terminates (no deadlock), addresses as inserted, the produced pack is decoded by the independent decoder and every content resolves to its bytes; evaluations = executions, distinct_nontrivial = (program, W, bound) configurations",
@@ -204,6 +213,17 @@ def main():
             elif "deadlock" in txt.lower() or "Causality" in txt or "assert" in txt.lower():
                 k = f"{prop} loom verdict (process aborted): " + ("deadlock" if "deadlock" in txt.lower() else "race/assertion")
                 violations.setdefault(k, {"key": k, "what": f"{name}: {txt[-300:]}", "case": {"engine": "loomdrv.py", "cfg": r["cfg"]}, "count": 0})["count"] += 1
+            elif memory_error(r):
+                # the process that runs the real code died of a signal / of glibc's heap checks:
+                # a memory error of the code under exploration (the property names it). It counts
+                # only when the same configuration dies the same way a second time.
+                again = run(r["cfg"], cap_s)
+                if "crash" in again and memory_error(again):
+                    what = "heap corruption detected by the allocator" if r.get("rc") == -6 else f"signal {-r.get('rc', 0)}"
+                    k = f"{prop} memory error in the process running the real code under loom ({what}) [{r['cfg'][0]}]"
+                    violations.setdefault(k, {"key": k, "what": f"{name}: loommc exited {r.get('rc')}: {txt[-200:].strip()} (reproduced on a second run)", "case": {"engine": "loomdrv.py", "sub": sub, "cfg": r["cfg"]}, "count": 0})["count"] += 1
+                else:
+                    machinery.append(f"{name}: loommc exited {r.get('rc')} without a result, not reproduced: {txt[-200:]}")
             else:
                 machinery.append(f"{name}: loommc exited {r.get('rc')} without a result: {txt[-200:]}")
             continue
